@@ -97,7 +97,9 @@ func (s *seq) onStall(what string, op *opRec) bool {
 		return true
 	case "wedged":
 		site := "api"
-		if b, ok := detail["packages"].([]string); ok && len(b) > 0 {
+		if h, ok := detail["handle_blocked_in"].(string); ok && h != "" {
+			site = "handle-blocked:" + h
+		} else if b, ok := detail["packages"].([]string); ok && len(b) > 0 {
 			site = strings.Join(b, "+")
 		} else if b, ok := detail["blocked_on_channel_send_in"].([]string); ok && len(b) > 0 {
 			// no storage lock involved: name the portbase function that waits on a
@@ -109,7 +111,11 @@ func (s *seq) onStall(what string, op *opRec) bool {
 			detail["op"] = opDetail(op, nil)
 		}
 		detail["journal_tail"] = s.e.journalTail(30)
-		s.viol(finding{Sig: "C13:wedged:" + site, What: "the goroutines handling API requests are blocked for good: every goroutine inside portbase is blocked with an identical stack in three dumps 3 s apart and some wait for a mutex (awaited: " + what + ")", Detail: detail})
+		msg := "the goroutines handling API requests are blocked for good: every goroutine inside portbase is blocked with an identical stack in three dumps 3 s apart and some wait for a mutex (awaited: " + what + ")"
+		if h, ok := detail["handle_blocked_in"].(string); ok && h != "" {
+			msg = fmt.Sprintf("DatabaseAPI.Handle does not return: the connection's reader is blocked in %s with an identical stack in three dumps 3 s apart while nothing else works on behalf of the connection (%v subscription loops wait for their feeds); no further message, not even a cancel, can be handled", h, detail["parked_subscription_loops"])
+		}
+		s.viol(finding{Sig: "C13:wedged:" + site, What: msg, Detail: detail})
 	default:
 		s.e.b.Inconclusive("sequence %d of batch %d: watchdog (%s) expired waiting for %s while handlers were still running (same stacks: %v, lock waits: %v, not blocked: %v)", s.no, s.e.spec.Batch, s.e.waitLim, what, detail["same_stacks"], detail["lock_waiting_goroutines"], detail["not_blocked"])
 	}
@@ -1203,6 +1209,87 @@ func (s *seq) stepConcurrent() {
 }
 
 func anyMap(m map[string]any) any { return m }
+
+// stepManySubs: many subscriptions open at the same time on one connection, then
+// ordinary requests and the cancels of all of them. n is chosen around sizes at which
+// per-connection limits typically sit (1, 8, 63, 64, 65, 100, 300).
+func (s *seq) stepManySubs(n int) {
+	d := s.writableDB()
+	if d.Backend == "fstree" { // a query over a prefix without a directory is an error there
+		d = s.e.w.db("hmap")
+	}
+	tag := "many-subs"
+	if !s.allowed(tag) || !s.idle() {
+		return
+	}
+	prefix := fmt.Sprintf("api/b%d/m%d-%d/", s.e.spec.Batch, s.no, len(s.c.ops))
+	s.e.keyCtr++
+	if err := s.e.w.putWrapper(fmt.Sprintf("%s:%sseed", d.Name, prefix), dsd.JSON, []byte(`{"n":1}`), nil); err != nil {
+		return
+	}
+	before, ok := s.e.waitIdle()
+	if !ok {
+		s.onStall("handlers to finish", nil)
+		return
+	}
+	s.e.b.Count("many_subs_steps", 1)
+	s.e.b.Seen("many_subs_sizes", fmt.Sprint(n))
+	var subs []*subRec
+	for i := 0; i < n && !s.e.handleStuck; i++ {
+		cmd := "sub"
+		if s.r.Chance(1, 3) {
+			cmd = "qsub"
+		}
+		q := &queryGen{DB: d.Name, Prefix: prefix, Valid: true, Model: true, Class: "prefix", Text: "query " + d.Name + ":" + prefix}
+		op := s.c.request(s.e.newOpID(s.r), cmd, q.Text, tag, d.Backend)
+		subs = append(subs, &subRec{op: op, q: q})
+		s.note(cmd + "/" + d.Backend)
+	}
+	if !s.idle() {
+		return
+	}
+	after, _ := s.e.waitIdle()
+	s.e.b.Max("max_open_subscriptions", int64(after))
+	if after != before+n {
+		s.viol(finding{Sig: "C13:missing-reply:sub", What: fmt.Sprintf("%d subscriptions were requested on one connection, %d subscription loops are waiting and no handler is running", n, after-before),
+			Detail: map[string]any{"requested": n, "waiting": after - before, "journal_tail": s.e.journalTail(12)}})
+		return
+	}
+	for _, sb := range subs {
+		sb.op.Established = true
+	}
+	s.e.b.Count("subs_established", int64(n))
+	// with all of them open: a change every one of them selects, and ordinary requests
+	key := fmt.Sprintf("%s:%schange", d.Name, prefix)
+	raw, doc := genDoc(s.r, s.r.Intn(12))
+	if err := s.e.w.putWrapper(key, dsd.JSON, raw, nil); err == nil {
+		s.e.model[key] = &modelRec{Key: key, DB: d.Name, Exists: true, Known: true, Doc: doc}
+		for _, sb := range subs {
+			sb.expect = append(sb.expect, expNote{Key: key, Doc: doc})
+		}
+	}
+	if !s.idle() {
+		return
+	}
+	s.get(d, key, "get/with-many-subs")
+	s.note("query/" + d.Backend)
+	qop := s.c.request(s.e.newOpID(s.r), "query", "query "+d.Name+":"+prefix, "query/with-many-subs", d.Backend)
+	if !s.settle(qop) {
+		return
+	}
+	s.recordOutcome(qop)
+	for _, sb := range subs {
+		s.c.cancel(sb.op, "cancel/sub")
+	}
+	s.e.b.Seen("cancel_points", "sub:many")
+	if !s.idle() {
+		return
+	}
+	for _, sb := range subs {
+		s.recordOutcome(sb.op)
+		s.checkSub(sb)
+	}
+}
 
 // stepSlowClient: a subscriber that does not read (the send function holds the API's
 // goroutine on the subscription's first notification) while more changes match its
